@@ -33,6 +33,9 @@ func binPath() string { return os.Getenv("VERIF_BIN") }
 // cleanEnv: a minimal environment so that the operator's own configuration never leaks into a probe.
 func cleanEnv(home string, extra ...string) []string {
 	env := []string{"PATH=/usr/bin:/bin", "HOME=" + home, "XDG_CONFIG_HOME=" + filepath.Join(home, "xdg"), "TMPDIR=" + home}
+	if d := os.Getenv("VERIF_BINCOVER"); d != "" {
+		env = append(env, "GOCOVERDIR="+d) // development aid: the binary was built with -cover
+	}
 	return append(env, extra...)
 }
 
